@@ -43,17 +43,36 @@ Fixpoint spec_run (l : list T) (ops : list (op T)) : list (out T) :=
   | o :: rest => let '(l', r) := spec_step l o in r :: spec_run l' rest
   end.
 
-(* "each op carries a valid oracle": the only thing the validity of an oracle depends on is the
-   current buffer length [cap] and element count [cnt], which evolve deterministically. *)
+Fixpoint spec_exec (l : list T) (ops : list (op T)) : list T :=
+  match ops with
+  | [] => l
+  | o :: rest => spec_exec (fst (spec_step l o)) rest
+  end.
+
+(* "each op carries a valid oracle".  The only thing the validity of an oracle depends on is the
+   current buffer length [cap] and the element count [cnt]; both evolve deterministically:
+   an Add/Push that finds cnt < cap does not grow (its oracle is ignored); otherwise the oracle c
+   must satisfy the runtime's contract c > cap, and c is the new buffer length. *)
+Definition oracle_valid (cap cnt : Z) (o : op T) : Prop :=
+  match o with
+  | OAdd _ c | OPush _ c => cnt < cap \/ c > cap
+  | _ => True
+  end.
+
+Definition cap_next (cap cnt : Z) (o : op T) : Z * Z :=
+  match o with
+  | OAdd _ c | OPush _ c => (if cnt <? cap then cap else c, cnt + 1)
+  | OPop | OPopLast => (cap, if cnt =? 0 then 0 else cnt - 1)
+  | OClear => (0, 0)
+  | _ => (cap, cnt)
+  end.
+
 Fixpoint oracles_ok (cap cnt : Z) (ops : list (op T)) : Prop :=
   match ops with
   | [] => True
-  | OAdd _ c :: rest | OPush _ c :: rest =>
-    if cnt <? cap then oracles_ok cap (cnt + 1) rest
-    else c > cap /\ oracles_ok c (cnt + 1) rest
-  | OPop :: rest | OPopLast :: rest => oracles_ok cap (if cnt =? 0 then 0 else cnt - 1) rest
-  | OClear :: rest => oracles_ok 0 0 rest
-  | _ :: rest => oracles_ok cap cnt rest
+  | o :: rest =>
+    oracle_valid cap cnt o /\
+    oracles_ok (fst (cap_next cap cnt o)) (snd (cap_next cap cnt o)) rest
   end.
 
 Definition init_cap (i : init) : Z :=
